@@ -113,7 +113,8 @@ TStep ==
      IF e.ev \in {"Init", "Reset"}
      THEN /\ Wd' = e.st
           /\ \A i \in Idx(e.st.miners) :
-                MinerChecks(e.st.miners[i], [dep0 |-> [m \in MinerNames(e.st) |-> MinerOf(e.st, m).locked]], [ev |-> e.ev, ok |-> TRUE])
+                /\ MinerChecks(e.st.miners[i], [dep0 |-> [m \in MinerNames(e.st) |-> MinerOf(e.st, m).locked]], [ev |-> e.ev, ok |-> TRUE])
+                /\ Chk("C14", "DepositVestsOnSchedule", DepositVestsOnSchedule(e.st.miners[i]), "-", [ev |-> e.ev])
           /\ G' = [dep0 |-> [m \in MinerNames(e.st) |-> MinerOf(e.st, m).locked],
                    fresh |-> [m \in MinerNames(e.st) |-> FALSE], lost |-> {}]
      ELSE /\ Wd' = e.st
